@@ -103,9 +103,27 @@ func logClose(err error, pw *io.PipeWriter) {
 	}
 }
 
-func (r *request) buildHTTP(mediaType, basePath string, producers map[string]runtime.Producer, registry strfmt.Registry, auth runtime.ClientAuthInfoWriter) (*http.Request, error) { //nolint:gocyclo,maintidx
+func (r *request) buildHTTP(mediaType, basePath string, producers map[string]runtime.Producer, registry strfmt.Registry, auth runtime.ClientAuthInfoWriter) (req *http.Request, err error) { //nolint:gocyclo,maintidx
+	var pr *io.PipeReader
+	defer func() {
+		if err == nil {
+			return
+		}
+		// the request is not going to be sent: release the upload sources
+		if pr != nil {
+			// unblocks the multipart writer, which closes the files
+			_ = pr.CloseWithError(err)
+			return
+		}
+		for _, ff := range r.fileFields {
+			for _, ffi := range ff {
+				_ = ffi.Close()
+			}
+		}
+	}()
+
 	// build the data
-	if err := r.writer.WriteToRequest(r, registry); err != nil {
+	if err = r.writer.WriteToRequest(r, registry); err != nil {
 		return nil, err
 	}
 
@@ -114,7 +132,6 @@ func (r *request) buildHTTP(mediaType, basePath string, producers map[string]run
 	// bytes.Buffer then it will wrap it in an io.ReadCloser
 	// and set the content length automatically.
 	var body io.Reader
-	var pr *io.PipeReader
 	var pw *io.PipeWriter
 
 	r.buf = bytes.NewBuffer(nil)
@@ -144,6 +161,14 @@ func (r *request) buildHTTP(mediaType, basePath string, producers map[string]run
 				pw.Close()
 			}()
 
+			defer func() {
+				for _, ff := range r.fileFields {
+					for _, ffi := range ff {
+						ffi.Close()
+					}
+				}
+			}()
+
 			for fn, v := range r.formFields {
 				for _, vi := range v {
 					if err := mp.WriteField(fn, vi); err != nil {
@@ -153,13 +178,6 @@ func (r *request) buildHTTP(mediaType, basePath string, producers map[string]run
 				}
 			}
 
-			defer func() {
-				for _, ff := range r.fileFields {
-					for _, ffi := range ff {
-						ffi.Close()
-					}
-				}
-			}()
 			for fn, f := range r.fileFields {
 				for _, fi := range f {
 					var fileContentType string
@@ -325,7 +343,7 @@ DoneChoosingBodySource:
 		urlPath += "/"
 	}
 
-	req, err := http.NewRequestWithContext(context.Background(), r.method, urlPath, body)
+	req, err = http.NewRequestWithContext(context.Background(), r.method, urlPath, body)
 	if err != nil {
 		return nil, err
 	}
